@@ -50,6 +50,16 @@ type verifC09Snap struct {
 	wait, flush, sync                    int
 }
 
+// c09Full: how a full-maintenance record spells its mode — "full", or no mode at all (records
+// written by older tooling / by hand carry no `mode` key; everything that is not "light" is full).
+func c09Full() MaintenanceMode {
+	if verifnd.Choose("maintenance.mode-key", 2) == 1 {
+		verifnd.Fact("mode_key", "absent")
+		return ""
+	}
+	return FullMode
+}
+
 func verifC09Take(s *mysql.VerifServer) verifC09Snap {
 	return verifC09Snap{ro: s.ReadOnly, sro: s.SuperRO, off: s.Offline, rep: s.IsReplica, io: s.IORunning, sql: s.SQLRunning,
 		ssm: s.SSMaster, sss: s.SSSlave, src: s.Source, wait: s.WaitCount, flush: s.Flush, sync: s.SyncBinlog}
@@ -324,7 +334,8 @@ func verifC09Paused(o verifC09PausedOpts) {
 	recorded := verifC09Shape(w, shape, cfg.DisableSemiSyncReplicationOnMaintenance, !cfg.DisableSemiSyncReplicationOnMaintenance, replicasRunning)
 	verifDaemonState = &nodestate.DaemonState{}
 	verifPublishHealth(w)
-	w.dcs.seed(pathMaintenance, &Maintenance{InitiatedBy: "operator", MySyncPaused: true, Mode: FullMode})
+	fullMode := c09Full()
+	w.dcs.seed(pathMaintenance, &Maintenance{InitiatedBy: "operator", MySyncPaused: true, Mode: fullMode})
 	switch pending {
 	case 1:
 		w.dcs.seed(pathCurrentSwitch, &Switchover{From: recorded, Cause: CauseManual, InitiatedBy: "operator", MasterTransition: SwitchoverTransition})
@@ -388,7 +399,7 @@ func verifC09Paused(o verifC09PausedOpts) {
 		verifnd.Assert(verifnd.Not(watch.sqlChanged), "paused.no-mutation")
 		verifnd.Assert(!watch.dcsChanged, "paused.no-mutation")
 		rec, _ := recordNow.(Maintenance)
-		verifnd.Assert(rec.MySyncPaused && !rec.ShouldLeave && rec.Mode == FullMode && rec.InitiatedBy == "operator", "paused.record-kept")
+		verifnd.Assert(rec.MySyncPaused && !rec.ShouldLeave && rec.Mode == fullMode && rec.InitiatedBy == "operator", "paused.record-kept")
 
 		// ---- next state
 		lockGranted := len(w.dcs.LockAnswers) > locks && w.dcs.LockAnswers[len(w.dcs.LockAnswers)-1]
@@ -769,7 +780,7 @@ func verifC09Leave(defaultFaults int, small bool) {
 	verifPublishHealth(w)
 	switch via {
 	case 0:
-		w.dcs.seed(pathMaintenance, &Maintenance{InitiatedBy: "operator", MySyncPaused: true, ShouldLeave: true, Mode: FullMode})
+		w.dcs.seed(pathMaintenance, &Maintenance{InitiatedBy: "operator", MySyncPaused: true, ShouldLeave: true, Mode: c09Full()})
 		verifnd.Files[cfg.Maintenancefile] = ""
 	case 1:
 		verifnd.Files[cfg.Maintenancefile] = ""
@@ -881,7 +892,8 @@ func H_C09_enter() {
 	master := verifC09Shape(w, shape, false, true, true)
 	verifDaemonState = &nodestate.DaemonState{}
 	verifPublishHealth(w)
-	w.dcs.seed(pathMaintenance, &Maintenance{InitiatedBy: "operator", Mode: FullMode})
+	enterMode := c09Full()
+	w.dcs.seed(pathMaintenance, &Maintenance{InitiatedBy: "operator", Mode: enterMode})
 	// faultmode 0: no failing call, a switch request may be pending; 1: a failing (or
 	// applied-but-reply-lost) mutating MySQL statement; 2: a failing DCS operation
 	faultmode := 0
@@ -942,7 +954,7 @@ func H_C09_enter() {
 		} else {
 			verifnd.Reach("C09.enter.ack-plain")
 		}
-		verifnd.Assert(rec.Mode == FullMode && !rec.ShouldLeave && rec.InitiatedBy == "operator", "enter.record-kept")
+		verifnd.Assert(rec.Mode == enterMode && !rec.ShouldLeave && rec.InitiatedBy == "operator", "enter.record-kept")
 	}
 
 	next := w.app.stateManager()
